@@ -136,7 +136,13 @@ Step ==
             /\ upraw' = EmptyTree /\ preup' = EmptyTree /\ digests' = [k \in 1..4 |-> ""]
             /\ exp' = Free(EmptyTree) /\ lastop' = [op |-> "init", p |-> <<>>, st |-> 0, src |-> <<>>, ow |-> FALSE] /\ div' = {} /\ nfail' = 0 /\ overwh' = {} /\ pview' = EmptyTree /\ slots' = [k \in 0..2 |-> NoSlot]
        [] r.e = "Layers" ->
-            /\ lowers' = [k \in DOMAIN r.lowers |-> TreeOf(r.lowers[k], TRUE)]
+            \* an opaque ROOT cuts off the layers below it like any opaque directory: r.ro lists the marker of each
+            \* layer's root (upper first when there is one); the lower layers that still contribute are kept
+            /\ lowers' = LET all == [k \in DOMAIN r.lowers |-> TreeOf(r.lowers[k], TRUE)]
+                              ro == IF Has(r, "ro") THEN r.ro ELSE <<>>
+                              off == IF hasUpper THEN 1 ELSE 0
+                              keep == {k \in DOMAIN all : \A j \in 1..(k + off - 1) : j \notin DOMAIN ro \/ ro[j] = ""}
+                          IN SubSeq(all, 1, Cardinality(keep))
             /\ upraw' = TreeOf(r.upper, TRUE)
             /\ UNCHANGED <<hasUpper, B, fresh, view, preup, digests, exp, lastop, div, nfail, overwh, pview, slots>>
        [] r.e = "BuildError" ->
